@@ -1182,6 +1182,8 @@ class AstEval:
                 try:
                     await func.trigger_init(self.global_ctx, name)
                 except Exception as e:
+                    # undo what was set up before the failure (eg, services already registered)
+                    func.trigger_stop()
                     self.log_exception(e)
                 func_var = EvalFuncVar(func)
                 func_var.set_ast_ctx(self)
